@@ -674,6 +674,13 @@ class _RawWriter:
     def fileno(self) -> int:
         return self._w.fileno()
 
+    def close(self) -> None:
+        self._w.close()
+
+    @property
+    def closed(self) -> bool:
+        return self._w.closed
+
 
 class VPipeWriter:
     """behaves like the BufferedWriter of a subprocess pipe: write() takes everything"""
@@ -863,7 +870,8 @@ class VPopen:
         hook = w.opts.get("popen_hook")
         if hook is not None:
             hook(proc)
-        self.stdin = pin.w_end
+        # bufsize=0 gives the caller the raw (unbuffered) stream: its write() may be short
+        self.stdin = pin.w_end.raw if kw.get("bufsize", -1) == 0 else pin.w_end
         self.stdout = pout.r
         parent.fds += [pin.w_end, pout.r]
         proc.fds += [pin.r, pout.w_end]
